@@ -2354,6 +2354,9 @@ func (l *Lowerer) evalConstantFloatExpr(expr parser.Expr) (float64, error) {
 			if sv.Kind == ir.ScalarFloat {
 				return float64(math.Float32frombits(uint32(sv.Bits))), nil
 			}
+			if sv.Kind == ir.ScalarUint {
+				return float64(uint32(sv.Bits)), nil
+			}
 			return float64(int32(sv.Bits)), nil
 		}
 		if constHandle, ok := l.moduleConstants[e.Name]; ok {
@@ -2366,6 +2369,9 @@ func (l *Lowerer) evalConstantFloatExpr(expr parser.Expr) (float64, error) {
 				return float64(math.Float32frombits(uint32(sv.Bits))), nil
 			}
 			// Integer constant used in float context
+			if sv.Kind == ir.ScalarUint {
+				return float64(uint32(sv.Bits)), nil
+			}
 			return float64(int32(sv.Bits)), nil
 		}
 		return 0, fmt.Errorf("'%s' is not a known constant", e.Name)
